@@ -898,7 +898,7 @@ impl<'a> LabelValue<'a> {
             self.target.buf.push_str(", ");
         }
         write!(
-            &mut self.target.buf, "{name}=\"{value}\""
+            &mut self.target.buf, "{name}=\"{}\"", EscapedLabel(value)
         ).expect("writing to string");
         self
     }
@@ -907,6 +907,37 @@ impl<'a> LabelValue<'a> {
         writeln!(
             &mut self.target.buf, "}} {value}"
         ).expect("writing to string");
+    }
+}
+
+
+//------------ EscapedLabel --------------------------------------------------
+
+/// Displays a label value escaped as required by the exposition format.
+///
+/// Backslash, double quote, and line feed are written as `\\`, `\"`, and
+/// `\n`, respectively.
+struct EscapedLabel<T>(T);
+
+impl<T: fmt::Display> fmt::Display for EscapedLabel<T> {
+    fn fmt(&self, f: &mut fmt::Formatter) -> fmt::Result {
+        struct Escape<'a, 'f>(&'a mut fmt::Formatter<'f>);
+
+        impl fmt::Write for Escape<'_, '_> {
+            fn write_str(&mut self, s: &str) -> fmt::Result {
+                for ch in s.chars() {
+                    match ch {
+                        '\\' => self.0.write_str("\\\\")?,
+                        '"' => self.0.write_str("\\\"")?,
+                        '\n' => self.0.write_str("\\n")?,
+                        _ => self.0.write_char(ch)?,
+                    }
+                }
+                Ok(())
+            }
+        }
+
+        write!(Escape(f), "{}", self.0)
     }
 }
 
